@@ -334,11 +334,13 @@ CleanRoundConverges ==
     \A p \in Peers : (clean[p] = "run" /\ Len(PeerSeq[p]) = 1 /\ rnd[p].st = "idle" /\ tasks = {} /\ Drained)
                         => Converged(p, PeerSeq[p][1])
 
-\* liveness: when the environment is done and everybody stays online, repeated rounds converge (this is the
-\* other half of NoLostUpdate: a change made during a round is picked up by a later round)
-\* SpacePushed: a peer asked by a round holds the space afterwards (unless it went offline)
+\* PushGivesSpace: a peer that answered ErrSpaceMissing holds the space after the push (unless it went offline)
+\* and the exchange with it starts again in the same round
 PushGivesSpace == [][\A p \in Peers : (rnd[p].st = "push" /\ rnd'[p].st # "push" /\ online[rnd[p].cur])
                          => (space'[rnd[p].cur] /\ rnd'[p].st = "check" /\ rnd'[p].cur = rnd[p].cur)]_vars
+
+\* liveness: when the environment is done and everybody stays online, repeated rounds converge (this is the
+\* other half of NoLostUpdate: a change made during a round is picked up by a later round)
 AllOnline == \A p \in Peers : online[p]
 EventuallyConverged == (<>[]AllOnline) => <>[](AllConverged /\ Drained)
 =============================================================================
